@@ -8,6 +8,10 @@
 (*   ParseReject  dag.ParseTransaction refuses the bytes (no State call)   *)
 (*   ReadVerify   db.Read { isPresent; verifiers }          (state.go:160) *)
 (*   LockWrite    db.Write: bbolt write lock + fn body      (state.go:176) *)
+(*   LockWriteLate  same, but a Put fails in the middle of the body: in    *)
+(*                dag.add ("tx": trees untouched), while persisting the    *)
+(*                IBLT leaf ("iblt": clock raised + IBLT inserted in       *)
+(*                memory) or the XOR leaf ("xor": both trees touched)      *)
 (*   Commit       bbolt commit + unlock                                    *)
 (*   FailCommit   ctx cancelled / commit error: rollback + unlock          *)
 (*   OnRollback   stoabs OnRollback hook -> loadState (AFTER the unlock,   *)
@@ -37,6 +41,10 @@ CONSTANTS
     Budget,           \* retry budget (real: maxRetries = 20)
     Threshold,        \* retries >= Threshold => visible as failed (real: 10)
     PayloadKinds,     \* subset of {"none","good","bad"} offered together with a tx
+    LateStages,       \* where a storage error may hit the write function: subset of {"tx","iblt","xor"} (Put on that shelf fails)
+    MaxDupPay,        \* bound on payloads written a second time (a payload query is broadcast: several peers answer)
+    PayloadDedup,     \* TRUE = a payload that is already stored for the transaction is ignored (wanted); FALSE = the code:
+                      \* State.WritePayload saves and publishes the payload event again
     TreeMutex,        \* TRUE = state.treeMutex spans db.Write and the OnRollback reload (the F1 repair); FALSE = before
     Hist              \* TRUE: record the action history (behaviour generation)
 
@@ -58,7 +66,7 @@ VARIABLES
     lock,     \* holder of the bbolt write lock
     tmu,      \* holder of state.treeMutex (Add only)
     pc, arg, wbuf,   \* per goroutine: control point, (tx, payload kind), uncommitted write set
-    todo, fails, crashes, corrupts,
+    todo, fails, crashes, corrupts, dups,
     tasks,    \* notifier goroutines: notifyNow executions in flight or scheduled
     calls,    \* history: set of (sub, tx) whose receiver was invoked at least once
     recalled, \* history: (sub, tx) whose receiver was invoked after its completion had been recorded
@@ -66,8 +74,8 @@ VARIABLES
     corrupted,\* pages whose xor leaf was corrupted and not yet repaired
     hist
 
-vars == <<disk, mem, lock, tmu, pc, arg, wbuf, todo, fails, crashes, corrupts, tasks, calls, recalled, done, corrupted, hist>>
-view == <<disk, mem, lock, tmu, pc, arg, wbuf, todo, fails, crashes, corrupts, tasks, calls, recalled, done, corrupted>>
+vars == <<disk, mem, lock, tmu, pc, arg, wbuf, todo, fails, crashes, corrupts, dups, tasks, calls, recalled, done, corrupted, hist>>
+view == <<disk, mem, lock, tmu, pc, arg, wbuf, todo, fails, crashes, corrupts, dups, tasks, calls, recalled, done, corrupted>>
 
 Log(e) == hist' = IF Hist THEN Append(hist, e) ELSE hist
 
@@ -82,7 +90,7 @@ Init ==
     /\ arg = [p \in Procs |-> [t |-> CHOOSE t \in Tx : TRUE, pl |-> "none"]]
     /\ wbuf = [p \in Procs |-> EmptyDisk]
     /\ todo = [p \in Procs |-> MaxOffers]
-    /\ fails = 0 /\ crashes = 0 /\ corrupts = 0
+    /\ fails = 0 /\ crashes = 0 /\ corrupts = 0 /\ dups = 0
     /\ tasks = {}
     /\ calls = {} /\ recalled = {}
     /\ done = {}
@@ -110,14 +118,14 @@ Offer(p, t, pl) ==
     /\ arg' = [arg EXCEPT ![p] = [t |-> t, pl |-> pl]]
     /\ pc' = [pc EXCEPT ![p] = "read"]
     /\ Log([a |-> "Offer", p |-> p, t |-> t, pl |-> pl])
-    /\ UNCHANGED <<disk, mem, lock, tmu, wbuf, fails, crashes, corrupts, tasks, calls, recalled, done, corrupted>>
+    /\ UNCHANGED <<disk, mem, lock, tmu, wbuf, fails, crashes, corrupts, dups, tasks, calls, recalled, done, corrupted>>
 
 \* bytes that do not parse never reach State.Add (network layer / API reject them)
 ParseReject(p, t) ==
     /\ pc[p] = "idle" /\ todo[p] > 0 /\ ~WF(t)
     /\ todo' = [todo EXCEPT ![p] = @ - 1]
     /\ Log([a |-> "ParseReject", p |-> p, t |-> t])
-    /\ UNCHANGED <<disk, mem, lock, tmu, pc, arg, wbuf, fails, crashes, corrupts, tasks, calls, recalled, done, corrupted>>
+    /\ UNCHANGED <<disk, mem, lock, tmu, pc, arg, wbuf, fails, crashes, corrupts, dups, tasks, calls, recalled, done, corrupted>>
 
 \* db.Read: RLock is not granted while a writer holds the lock
 ReadVerify(p) ==
@@ -127,7 +135,7 @@ ReadVerify(p) ==
        IN /\ pc' = [pc EXCEPT ![p] = IF ok THEN "wlock" ELSE "idle"]
           /\ Log([a |-> "ReadVerify", p |-> p, t |-> t,
                   res |-> IF t \in disk.txs THEN "present" ELSE IF ok THEN "verified" ELSE "rejected"])
-    /\ UNCHANGED <<disk, mem, lock, tmu, arg, wbuf, todo, fails, crashes, corrupts, tasks, calls, recalled, done, corrupted>>
+    /\ UNCHANGED <<disk, mem, lock, tmu, arg, wbuf, todo, fails, crashes, corrupts, dups, tasks, calls, recalled, done, corrupted>>
 
 NewJobs(t, evTypes) == {<<s, t>> : s \in {s \in Subs : SubType(s) \in evTypes /\ Selects(s, t)}}
 
@@ -164,7 +172,25 @@ LockWrite(p) ==
                /\ wbuf' = [wbuf EXCEPT ![p] = WithLeaf(d1, m2, Page(Lc(t)))]
                /\ pc' = [pc EXCEPT ![p] = "written"]
                /\ Log([a |-> "LockWrite", p |-> p, t |-> t, res |-> "written"])
-    /\ UNCHANGED <<disk, arg, todo, fails, crashes, corrupts, tasks, calls, recalled, done, corrupted>>
+    /\ UNCHANGED <<disk, arg, todo, fails, crashes, corrupts, dups, tasks, calls, recalled, done, corrupted>>
+
+\* a storage error inside the write function, after the checks passed: updateState works on the IN-MEMORY trees first
+\* (tree.Insert, lamportClockHigh CAS) and persists the dirty leaf afterwards, so the memory is ahead of the rolled-back store
+LockWriteLate(p, stage) ==
+    /\ pc[p] = "wlock" /\ lock = None /\ (TreeMutex => tmu = None)
+    /\ stage \in LateStages /\ fails < MaxFail
+    /\ LET t == arg[p].t  pl == arg[p].pl
+           hi == IF Lc(t) > mem.lcHigh THEN Lc(t) ELSE mem.lcHigh IN
+       /\ t \notin disk.txs /\ pl # "bad" /\ ~(Prevs(t) = {} /\ Roots(disk.txs) # {})
+       /\ mem' = CASE stage = "tx"   -> mem
+                  [] stage = "iblt" -> [mem EXCEPT !.iblt[t] = @ + 1, !.lcHigh = hi]
+                  [] stage = "xor"  -> [xor |-> SymDiff(mem.xor, {t}), iblt |-> [mem.iblt EXCEPT ![t] = @ + 1], lcHigh |-> hi]
+       /\ Log([a |-> "LockWrite", p |-> p, t |-> t, res |-> "error-" \o stage])
+    /\ lock' = p /\ tmu' = (IF TreeMutex THEN p ELSE tmu)
+    /\ fails' = fails + 1
+    /\ wbuf' = [wbuf EXCEPT ![p] = disk]
+    /\ pc' = [pc EXCEPT ![p] = "fnerr"]
+    /\ UNCHANGED <<disk, arg, todo, crashes, corrupts, dups, tasks, calls, recalled, done, corrupted>>
 
 Commit(p) ==
     /\ pc[p] \in {"written", "noop"}
@@ -172,7 +198,7 @@ Commit(p) ==
     /\ tmu' = (IF tmu = p THEN None ELSE tmu)              \* AfterCommit(unlockTrees) is the first hook
     /\ pc' = [pc EXCEPT ![p] = IF pc[p] = "written" THEN "committed" ELSE "idle"]
     /\ Log([a |-> "Commit", p |-> p, t |-> arg[p].t])
-    /\ UNCHANGED <<mem, arg, wbuf, todo, fails, crashes, corrupts, tasks, calls, recalled, done, corrupted>>
+    /\ UNCHANGED <<mem, arg, wbuf, todo, fails, crashes, corrupts, dups, tasks, calls, recalled, done, corrupted>>
 
 \* error from fn, cancelled context or failing bbolt commit: rollback, unlock, THEN the hook
 Rollback(p) ==
@@ -182,7 +208,7 @@ Rollback(p) ==
     /\ lock' = None /\ UNCHANGED tmu                       \* bbolt unlocks BEFORE the OnRollback hook runs
     /\ pc' = [pc EXCEPT ![p] = "rolledback"]
     /\ Log([a |-> "Rollback", p |-> p, t |-> arg[p].t])
-    /\ UNCHANGED <<disk, mem, arg, wbuf, todo, crashes, corrupts, tasks, calls, recalled, done, corrupted>>
+    /\ UNCHANGED <<disk, mem, arg, wbuf, todo, crashes, corrupts, dups, tasks, calls, recalled, done, corrupted>>
 
 Load(d) == [xor |-> d.xor, iblt |-> d.iblt, lcHigh |-> d.lcHigh]
 
@@ -193,7 +219,7 @@ OnRollback(p) ==
     /\ tmu' = (IF tmu = p THEN None ELSE tmu) /\ UNCHANGED lock
     /\ pc' = [pc EXCEPT ![p] = "idle"]
     /\ Log([a |-> "OnRollback", p |-> p, t |-> arg[p].t])
-    /\ UNCHANGED <<disk, arg, wbuf, todo, fails, crashes, corrupts, tasks, calls, recalled, done, corrupted>>
+    /\ UNCHANGED <<disk, arg, wbuf, todo, fails, crashes, corrupts, dups, tasks, calls, recalled, done, corrupted>>
 
 \* AfterCommit -> notify: one notifyNow per selecting subscriber ("first" tasks)
 FirstTasks(js) == {[s |-> j[1], t |-> j[2], att |-> Budget - 1, phase |-> "ready", res |-> "none"] : j \in js}
@@ -204,7 +230,7 @@ AfterCommit(p) ==
        IN tasks' = tasks \cup FirstTasks(NewJobs(t, evs))
     /\ pc' = [pc EXCEPT ![p] = "idle"]
     /\ Log([a |-> "AfterCommit", p |-> p, t |-> arg[p].t])
-    /\ UNCHANGED <<disk, mem, lock, tmu, arg, wbuf, todo, fails, crashes, corrupts, calls, recalled, done, corrupted>>
+    /\ UNCHANGED <<disk, mem, lock, tmu, arg, wbuf, todo, fails, crashes, corrupts, dups, calls, recalled, done, corrupted>>
 
 (***************************************************************************)
 (* notifier.notifyNow, split at the receiver call                          *)
@@ -219,7 +245,7 @@ NotifyCall(k, r) ==
             /\ recalled' = IF <<k.s, k.t>> \in done THEN recalled \cup {<<k.s, k.t>>} ELSE recalled
             /\ tasks' = (tasks \ {k}) \cup {[k EXCEPT !.phase = "called", !.res = r]}
             /\ Log([a |-> "NotifyCall", s |-> k.s, t |-> k.t, res |-> r])
-    /\ UNCHANGED <<disk, mem, lock, tmu, pc, arg, wbuf, todo, fails, crashes, corrupts, done, corrupted>>
+    /\ UNCHANGED <<disk, mem, lock, tmu, pc, arg, wbuf, todo, fails, crashes, corrupts, dups, done, corrupted>>
 
 \* Finished (delete job) | write back the incremented retry counter; schedule the retry goroutine
 NotifyMark(k) ==
@@ -235,19 +261,30 @@ NotifyMark(k) ==
                         THEN tasks \ {k}
                         ELSE (tasks \ {k}) \cup {[k EXCEPT !.phase = "ready", !.res = "none", !.att = @ - 1]}
     /\ Log([a |-> "NotifyMark", s |-> k.s, t |-> k.t, res |-> k.res])
-    /\ UNCHANGED <<mem, lock, tmu, pc, arg, wbuf, todo, fails, crashes, corrupts, calls, recalled, corrupted>>
+    /\ UNCHANGED <<mem, lock, tmu, pc, arg, wbuf, todo, fails, crashes, corrupts, dups, calls, recalled, corrupted>>
 
 (***************************************************************************)
 (* State.WritePayload: payload of an already admitted transaction          *)
 (***************************************************************************)
-WritePayload(t) ==
-    /\ t \in disk.txs /\ t \notin disk.pay /\ lock = None
-    /\ \A p \in Procs : pc[p] = "idle"
-    /\ LET js == NewJobs(t, {"payload"}) IN
-       /\ disk' = [disk EXCEPT !.pay = @ \cup {t}, !.jobs = @ \cup js]
-       /\ tasks' = tasks \cup FirstTasks(js)
+\* the body is a write transaction of its own (WithWriteLock); WritePayload restricts it to moments without an Add in
+\* flight to keep the exhaustive configs small, the trace specification uses the unrestricted body
+WritePayloadAny(t) ==
+    /\ t \in disk.txs /\ lock = None
+    /\ IF t \notin disk.pay
+       THEN /\ LET js == NewJobs(t, {"payload"}) IN
+               /\ disk' = [disk EXCEPT !.pay = @ \cup {t}, !.jobs = @ \cup js]
+               /\ tasks' = tasks \cup FirstTasks(js)
+            /\ UNCHANGED dups
+       ELSE \* the payload arrives a second time (answers of several participants, or an unsolicited TransactionPayload)
+            /\ dups < MaxDupPay /\ dups' = dups + 1
+            /\ IF PayloadDedup
+               THEN UNCHANGED <<disk, tasks>>
+               ELSE LET js == NewJobs(t, {"payload"}) IN
+                    /\ disk' = [disk EXCEPT !.jobs = @ \cup js]      \* saveEvent: the job is created anew
+                    /\ tasks' = tasks \cup FirstTasks(js)           \* notify
     /\ Log([a |-> "WritePayload", t |-> t])
     /\ UNCHANGED <<mem, lock, tmu, pc, arg, wbuf, todo, fails, crashes, corrupts, calls, recalled, done, corrupted>>
+WritePayload(t) == (\A p \in Procs : pc[p] = "idle") /\ WritePayloadAny(t)
 
 (***************************************************************************)
 (* Crash and restart                                                       *)
@@ -262,7 +299,7 @@ Crash ==
     /\ pc' = [p \in Procs |-> "idle"]
     /\ tasks' = {[s |-> j[1], t |-> j[2], att |-> ReplayAtt(j), phase |-> "ready", res |-> "none"] : j \in disk.jobs}
     /\ Log([a |-> "Crash"])
-    /\ UNCHANGED <<disk, arg, wbuf, todo, fails, corrupts, calls, recalled, done, corrupted>>
+    /\ UNCHANGED <<disk, arg, wbuf, todo, fails, corrupts, dups, calls, recalled, done, corrupted>>
 
 (***************************************************************************)
 (* XOR tree corruption (environment) and xorTreeRepair.checkPage           *)
@@ -276,7 +313,7 @@ Corrupt(pg, g) ==
     /\ disk' = [disk EXCEPT !.xor = SymDiff(@, {g})]
     /\ corrupted' = corrupted \cup {pg}
     /\ Log([a |-> "Corrupt", pg |-> pg, g |-> g])
-    /\ UNCHANGED <<lock, tmu, pc, arg, wbuf, todo, fails, crashes, tasks, calls, recalled, done>>
+    /\ UNCHANGED <<lock, tmu, pc, arg, wbuf, todo, fails, crashes, dups, tasks, calls, recalled, done>>
 
 CheckPage(pg) ==
     /\ lock = None /\ corrupted # {} /\ pg \in Pages
@@ -289,12 +326,12 @@ CheckPage(pg) ==
     /\ corrupted' = IF mem'.xor \cap OnPage(pg) = disk'.txs \cap OnPage(pg) /\ disk'.xor \cap OnPage(pg) = disk'.txs \cap OnPage(pg)
                     THEN corrupted \ {pg} ELSE corrupted
     /\ Log([a |-> "CheckPage", pg |-> pg])
-    /\ UNCHANGED <<lock, tmu, pc, arg, wbuf, todo, fails, crashes, corrupts, tasks, calls, recalled, done>>
+    /\ UNCHANGED <<lock, tmu, pc, arg, wbuf, todo, fails, crashes, corrupts, dups, tasks, calls, recalled, done>>
 
 Next ==
     \/ \E p \in Procs, t \in Tx, pl \in PayloadKinds : Offer(p, t, pl)
     \/ \E p \in Procs, t \in Tx : ParseReject(p, t)
-    \/ \E p \in Procs : ReadVerify(p) \/ LockWrite(p) \/ Commit(p) \/ Rollback(p) \/ OnRollback(p) \/ AfterCommit(p)
+    \/ \E p \in Procs : ReadVerify(p) \/ LockWrite(p) \/ (\E g \in LateStages : LockWriteLate(p, g)) \/ Commit(p) \/ Rollback(p) \/ OnRollback(p) \/ AfterCommit(p)
     \/ \E k \in tasks : (\E r \in Responses : NotifyCall(k, r)) \/ NotifyMark(k)
     \/ \E t \in Tx : WritePayload(t)
     \/ Crash
